@@ -588,11 +588,12 @@ def model_drift(behs, per):
                 c[key + ":agree"] += 1
                 if real:
                     c[key + ":agree-delete"] += 1
-            else:
-                kind = "real_only" if set(real) - set(st["expect"]) else "model_only"
-                if st["a"] == "Gc" and st.get("lookupFail") and kind == "real_only":
-                    kind = "real_only(lookup-failed)"
-                c[key + ":" + kind] += 1
-                if len(examples) < 5:
-                    examples.append({"behaviour": i, "step": j, "a": st["a"], "model": st["expect"], "real": real})
+                continue
+            kind = "real_only" if set(real) - set(st["expect"]) else "model_only"
+            if st["a"] == "Gc" and st.get("lookupFail") and kind == "real_only":
+                kind = "real_only(lookup-failed)"
+            c[key + ":" + kind] += 1
+            if len(examples) < 5 and kind != "real_only(lookup-failed)":
+                examples.append({"behaviour": i, "step": j, "a": st["a"], "model": st["expect"], "real": real})
+            break       # from the first divergence on the two worlds differ: later reconciles are not comparable
     return dict(c), examples
